@@ -1,0 +1,147 @@
+//! Verification hooks: public access to crate-internal pure functions for the
+//! model/implementation correspondence checks kept outside this repository.
+//! Compiled only with `--cfg anoncreds_verif`; adds no behaviour.
+#![allow(missing_docs, clippy::missing_errors_doc, clippy::type_complexity)]
+
+use std::collections::{HashMap, HashSet};
+
+pub use crate::services::helpers::{
+    attr_common_view, encode_credential_attribute, get_non_revoked_interval,
+    get_requested_non_revoked_interval,
+};
+pub use crate::utils::query::Query;
+pub use crate::utils::validation::{
+    is_uri_identifier, Validatable, LEGACY_CRED_DEF_IDENTIFIER, LEGACY_DID_IDENTIFIER,
+    LEGACY_REV_REG_DEF_IDENTIFIER, LEGACY_SCHEMA_IDENTIFIER, URI_IDENTIFIER,
+};
+
+use crate::data_types::cred_def::{CredentialDefinition, CredentialDefinitionId};
+use crate::data_types::pres_request::{NonRevokedInterval, PresentationRequestPayload};
+use crate::data_types::presentation::{Identifier, RequestedProof};
+use crate::data_types::rev_reg_def::RevocationRegistryDefinitionId;
+use crate::data_types::rev_status_list::RevocationStatusList;
+use crate::data_types::schema::{Schema, SchemaId};
+use crate::services::verifier::Filter;
+use crate::Result;
+
+pub fn normalize_encoded_attr(attr: &str) -> String {
+    crate::services::verifier::verif_hooks::normalize_encoded_attr(attr)
+}
+
+pub fn process_operator(
+    attr_value_map: &HashMap<String, Option<String>>,
+    restriction_op: &Query,
+    filter: &Filter,
+) -> Result<()> {
+    crate::services::verifier::process_operator(attr_value_map, restriction_op, filter)
+}
+
+pub fn gather_filter_info(
+    identifier: &Identifier,
+    schemas: &HashMap<SchemaId, Schema>,
+    cred_defs: &HashMap<CredentialDefinitionId, CredentialDefinition>,
+) -> Result<Filter> {
+    crate::services::verifier::gather_filter_info(identifier, schemas, cred_defs)
+}
+
+#[allow(clippy::too_many_arguments)]
+pub fn check_non_revoked_interval(
+    cred_def: &CredentialDefinition,
+    attrs_nonrevoked_interval: Option<NonRevokedInterval>,
+    pred_nonrevoked_interval: Option<NonRevokedInterval>,
+    pres_req: &PresentationRequestPayload,
+    rev_reg_id: Option<&RevocationRegistryDefinitionId>,
+    nonrevoke_interval_override: Option<
+        &HashMap<RevocationRegistryDefinitionId, HashMap<u64, u64>>,
+    >,
+    timestamp: Option<u64>,
+) -> Result<()> {
+    crate::services::verifier::verif_hooks::check_non_revoked_interval(
+        cred_def,
+        attrs_nonrevoked_interval,
+        pred_nonrevoked_interval,
+        pres_req,
+        rev_reg_id,
+        nonrevoke_interval_override,
+        timestamp,
+    )
+}
+
+pub fn compare_attr_from_proof_and_request(
+    pres_req: &PresentationRequestPayload,
+    received_revealed_attrs: &HashMap<String, Identifier>,
+    received_unrevealed_attrs: &HashMap<String, Identifier>,
+    received_self_attested_attrs: &HashSet<String>,
+    received_predicates: &HashMap<String, Identifier>,
+) -> Result<()> {
+    crate::services::verifier::compare_attr_from_proof_and_request(
+        pres_req,
+        received_revealed_attrs,
+        received_unrevealed_attrs,
+        received_self_attested_attrs,
+        received_predicates,
+    )
+}
+
+#[allow(clippy::too_many_arguments)]
+pub fn verify_requested_restrictions(
+    pres_req: &PresentationRequestPayload,
+    schemas: &HashMap<SchemaId, Schema>,
+    cred_defs: &HashMap<CredentialDefinitionId, CredentialDefinition>,
+    requested_proof: &RequestedProof,
+    received_revealed_attrs: &HashMap<String, Identifier>,
+    received_unrevealed_attrs: &HashMap<String, Identifier>,
+    received_predicates: &HashMap<String, Identifier>,
+    self_attested_attrs: &HashSet<String>,
+) -> Result<()> {
+    crate::services::verifier::verify_requested_restrictions(
+        pres_req,
+        schemas,
+        cred_defs,
+        requested_proof,
+        received_revealed_attrs,
+        received_unrevealed_attrs,
+        received_predicates,
+        self_attested_attrs,
+    )
+}
+
+pub fn get_attributes_for_credential(rp: &RequestedProof, index: u32) -> HashSet<String> {
+    rp.get_attributes_for_credential(index)
+}
+
+pub fn get_predicates_for_credential(rp: &RequestedProof, index: u32) -> HashSet<String> {
+    rp.get_predicates_for_credential(index)
+}
+
+pub fn requested_attributes_interval(
+    pres_req: &PresentationRequestPayload,
+    referents: &HashSet<String>,
+) -> Result<(Vec<String>, Option<NonRevokedInterval>)> {
+    pres_req.get_requested_attributes(referents)
+}
+
+pub fn requested_predicates_interval(
+    pres_req: &PresentationRequestPayload,
+    referents: &HashSet<String>,
+) -> Result<Option<NonRevokedInterval>> {
+    pres_req.get_requested_predicates(referents).map(|r| r.1)
+}
+
+pub fn status_list_state(list: &RevocationStatusList) -> Vec<bool> {
+    list.state().iter().map(|b| *b).collect()
+}
+
+pub fn status_list_timestamp(list: &RevocationStatusList) -> Option<u64> {
+    list.timestamp()
+}
+
+pub fn create_index_deltas(
+    delta: &bitvec::vec::BitVec,
+    list: &bitvec::vec::BitVec,
+) -> (std::collections::BTreeSet<u32>, std::collections::BTreeSet<u32>) {
+    let mut issued = HashSet::new();
+    let mut revoked = HashSet::new();
+    crate::services::prover::verif_hooks::create_index_deltas(delta, list, &mut issued, &mut revoked);
+    (issued.into_iter().collect(), revoked.into_iter().collect())
+}
